@@ -15,6 +15,7 @@ from __future__ import annotations
 import ast
 import importlib
 
+import numpy as np
 import sympy as sp
 
 from .common import *  # noqa
@@ -133,7 +134,25 @@ def run(run: Run, pkg: Package) -> None:
                        f"outside the table grammar (rational*sqrt*exp(k j phi)*sin^p*poly(cos)): {sp.sstr(e)[:120]}", loc=fi.loc())
                 continue
             ref = ylm_reference(l, m)
-            d = reduce_sc(e - ref)
+            try:
+                d = reduce_sc(e - ref)
+            except Exception:  # noqa  (an entry that is not a polynomial in sin / cos, e.g. cos written as sqrt(1 - sin^2))
+                # not in the canonical-form grammar: 40-digit evaluation of entry and definition at polar angles in both
+                # hemispheres; a differing point is a witness, agreement everywhere is not a proof
+                e_ang = S.to_sympy(ent, atom_of)
+                r_ang = ref.subs({c_: sp.cos(TH), s_: sp.sin(TH), z_: sp.exp(sp.I * PH)})
+                wit = None
+                for th, ph in ((sp.Rational(7, 10), sp.Rational(3, 10)), (sp.Rational(19, 10), sp.Rational(11, 10)), (sp.Rational(5, 2), -sp.Rational(6, 5)),
+                               (sp.Rational(31, 10), sp.Rational(2)), (sp.Rational(13, 10), sp.Rational(29, 10))):
+                    a = sp.N(e_ang.subs({TH: th, PH: ph}), 40)
+                    b = sp.N(r_ang.subs({TH: th, PH: ph}), 40)
+                    if abs(a - b) > sp.Float(10) ** -25:
+                        wit = f"theta={th}, phi={ph} (cos(theta)={sp.N(sp.cos(th), 6)}): code={sp.N(a, 12)} definition={sp.N(b, 12)}"
+                        break
+                n_forms += 1
+                run.ob("R-TABLE-YLM", fq, key, False if wit else None, f"entry {k} of SphHarm{l} equals Y_{l},{m}(theta, phi) identically",
+                       f"entry outside the polynomial grammar in sin / cos: {sp.sstr(e)[:100]}" + ("" if wit else "; agrees at 5 sample angles (not a proof)"), witness=wit, loc=fi.loc(), sound=True)
+                continue
             ok = sp.simplify(d) == 0
             n_forms += 1
             if ok:
@@ -152,8 +171,9 @@ def run(run: Run, pkg: Package) -> None:
     fi = it.fi
     fq = short(fi.qual)
     params = fi.params
-    if len(params) != 3:
-        raise AnalysisError("sph_harm_l: expected (l, theta, phi)")
+    optbind = option_defaults(run, fi, fq, "sph_harm_l: expected (l, theta, phi[, options with defaults])")
+    if optbind:
+        it = interp(pkg, q, bind=optbind)
     lsym = ("sym", params[0])
 
     def leaf_for(lv):
@@ -177,7 +197,7 @@ def run(run: Run, pkg: Package) -> None:
         leaf = leaf_for(lv)
         key = f"dispatch l={lv}"
         # the dispatcher specialised to this degree: tests on l, table lookups indexed by l and the callee they select fold away
-        it = interp(pkg, q, bind={params[0]: C(lv)})
+        it = interp(pkg, q, bind={params[0]: C(lv), **optbind})
         lsym = C(lv)
         if lv <= 10:
             want = pkg.func(f"{MOD}.SphHarm{lv}").qual
@@ -362,9 +382,11 @@ def check_above(run: Run, pkg: Package) -> None:
     fq = short(fi.qual)
     mi = fi.module
     params = fi.params
-    if len(params) != 3:
-        raise AnalysisError("SphHarm_above: expected (l, theta, phi)")
-    L, TH_, PH_ = (("sym", p) for p in params)
+    optbind = option_defaults(run, fi, fq, "SphHarm_above: expected (l, theta, phi[, options with defaults])")
+    if optbind:
+        it = interp(pkg, q, bind=optbind)
+    L, TH_, PH_ = (("sym", p) for p in params[:3])
+    above_values(run, pkg, q, params, fq, fi, optbind)
     # find the per-m library call: a call whose arguments include a loop / comprehension variable
     cand = []
     for ev in it.events:
@@ -516,6 +538,75 @@ def check_above(run: Run, pkg: Package) -> None:
     ret = it.returns[0].data["value"] if it.returns else NONE
     run.ob("R-ANGLE", fq, "result-order", True if it.returns else None, "per-m values are returned in loop order", show(ret)[:80])
     run.minimum("R-ANGLE", 5)
+
+
+def option_defaults(run, fi, fq, msg):
+    """Parameters beyond (l, theta, phi) must be options with literal defaults; the documented three-argument call is analysed
+    with every option at its default and the other values of each option are reported as not analysed (never a silent pass)."""
+    params = fi.params
+    d = fi.defaults()
+    if len(params) < 3 or any(p not in d for p in params[3:]):
+        raise AnalysisError(msg)
+    out = {}
+    for p in params[3:]:
+        try:
+            out[p] = C(ast.literal_eval(d[p]))
+        except Exception:  # noqa
+            raise AnalysisError(msg)
+        run.ob("R-DISPATCH", fq, f"option:{p}", None, f"values of the option {p} other than its default {ast.unparse(d[p])} give the same harmonics",
+               "the rules analyse the documented call (l, theta, phi) with the option at its default; its other values are not analysed", loc=fi.loc())
+    return out
+
+
+def above_values(run, pkg, q, params, fq, fi, optbind=None):
+    """The value SphHarm_above returns, as a term with the degree bound to 11, 12, 13, evaluated with the library's harmonics at
+    a few angle pairs (azimuth of either sign, polar angle in both hemispheres) against [Y_l,m for m = -l..l].  Witness
+    generator for restructured bodies (orders built by symmetry, reordered, vectorised): a differing entry is a violation;
+    agreement is recorded as what it is - agreement at sample points."""
+    try:
+        import scipy.special as _ss
+        from .. import concrete as _cc
+    except Exception:  # noqa
+        return
+    lib_y = getattr(_ss, "sph_harm_y", None)
+    if lib_y is None:
+        return
+    _cc.FUNCS.setdefault("scipy.special.sph_harm_y", lib_y)
+    _cc.FUNCS.setdefault("scipy.special.sph_harm", lambda m, n, az, pol: lib_y(n, m, pol, az))
+    _cc.FUNCS.setdefault("numpy.radians", np.radians)
+    _cc.FUNCS.setdefault("numpy.deg2rad", np.deg2rad)
+    pts = [(1.1, 0.7), (2.3, -2.0), (0.4, 3.9), (1.9, -0.3)]
+    for lv in (11, 12, 13):
+        try:
+            from ..vg import Interp as _Interp
+            keep = _Interp.MAX_UNROLL
+            _Interp.MAX_UNROLL = 2 * lv + 2         # the per-order loop is unrolled completely for this degree
+            try:
+                it = _Interp(pkg, pkg.func(q), bind={params[0]: C(lv), **(optbind or {})})
+            finally:
+                _Interp.MAX_UNROLL = keep
+            if len(it.returns) != 1:
+                return
+            ret = it.returns[0].data["value"]
+            worst = None
+            for th, ph in pts:
+                got = np.asarray(_cc.ev(ret, {("sym", params[1]): th, ("sym", params[2]): ph}), dtype=complex).ravel()
+                want = np.array([lib_y(lv, m, th, ph) for m in range(-lv, lv + 1)])
+                if got.shape != want.shape:
+                    worst = (th, ph, None, f"{got.shape[0]} values instead of {want.shape[0]}")
+                    break
+                dev = np.abs(got - want)
+                if dev.max() > 1e-9:
+                    k = int(np.argmax(dev))
+                    worst = (th, ph, k - lv, f"got {np.round(got[k], 8)}, Y_{lv},{k - lv} = {np.round(want[k], 8)}")
+                    break
+        except Exception as e:  # noqa
+            run.note(f"above-values l={lv}: extracted return term not evaluable ({type(e).__name__}: {str(e)[:80]}); the structural rules decide alone")
+            return
+        run.ob("R-ANGLE", fq, f"above-values l={lv}", worst is None,
+               f"SphHarm_above({lv}, theta, phi) equals [Y_{lv},m(theta, phi) for m = -{lv}..{lv}] at {len(pts)} angle pairs (extracted return term evaluated with scipy's harmonics)",
+               "agreement at the sample angles" if worst is None else worst[3],
+               witness=None if worst is None else f"l={lv}, theta={worst[0]}, phi={worst[1]}, order m={worst[2]}: {worst[3]}", loc=fi.loc(), sound=True)
 
 
 def role_obligations(run, it, ev, variants, want, PH_):
